@@ -476,6 +476,9 @@ impl Debugger {
 
             debug!(target: "debugger", "jump into mmap'ed region");
             CallHelper::jump(ccx, alloc_ptr)?;
+            // the callee may execute the code at the original pc (recursion, shared helpers):
+            // put the original instructions back before it runs
+            ccx.dbg.write_memory(ccx.pc.as_usize(), ccx.text)?;
 
             debug!(target: "debugger", "call a given function");
             CallHelper::call_fn(ccx, alloc_ptr, fn_addr.as_u64(), args)?;
